@@ -77,7 +77,11 @@ def tr_ctx(mdib, tt):
 
 def apply_muts(obj, muts):
     for path, ev in muts:
-        V.set_path(obj, path, V.dec(ev))
+        try:
+            V.set_path(obj, path, V.dec(ev))
+        except (IndexError, AttributeError, TypeError) as ex:
+            # the path no longer exists (another writer changed the object since the plan was generated)
+            raise ValueError(f'mutation path {path} not applicable: {ex!r}') from ex
 
 
 # =========================================================================================== generation
@@ -275,6 +279,9 @@ class Gen:
                 sub = m.get_all_descriptors_in_subtree(d)
                 if any(x.Handle in touched for x in sub):
                     continue
+                sub_handles = {x.Handle for x in sub}
+                if any(st.get('parent') in sub_handles for st in steps) and rng.random() < 0.9:
+                    continue  # (mostly) do not delete a sub-tree into which this transaction creates a descriptor
                 for x in sub:
                     touched.add(x.Handle)
                 steps.append({'a': 'delete', 'h': d.Handle})
